@@ -7,6 +7,15 @@ CooArray = namedtuple("CooArray", ["row", "col", "val", "key", "ind", "min", "de
 COO_QUICKSORT_LIMIT = 1 << 16
 COO_MEM_MULTIPLIER = 1.5
 
+# Verification hook (off unless VECTORIZERS_VERIF=1): lets the sort/merge threshold be lowered so
+# that the multi-level merge and growth paths are reachable with small inputs.
+import os as _os
+
+if _os.environ.get("VECTORIZERS_VERIF") == "1" and _os.environ.get(
+    "VECTORIZERS_VERIF_COO_LIMIT"
+):
+    COO_QUICKSORT_LIMIT = int(_os.environ["VECTORIZERS_VERIF_COO_LIMIT"])
+
 
 @numba.njit(nogil=True)
 def set_array_size(token_sequences, window_array):
